@@ -112,9 +112,18 @@ def eval_case(ctx, case):
     Ls = d + float(np.linalg.norm(V.mean(axis=0)))
     try:
         p = coxeter.shapes.Polyhedron(V, [np.array(f) for f in F])
-        obs = {"volume": float(p.volume), "area": float(p.surface_area),
-               "face_areas": np.array(p.get_face_area(), dtype=float),
-               "centroid": np.array(p.centroid, dtype=float), "inertia": np.array(p.inertia_tensor, dtype=float)}
+        # a third of the cases: the same solid reached through a history (scaled, shifted copy; every query read once;
+        # size and centroid setters) - harness/history.py; and always: measures read in an order drawn per case
+        import history
+        from common import read_shuffled
+        p, _how = history.maybe_via_history(p, history.rng_for(V), 0.33, ctx)
+        if _how.startswith("via"):
+            V = np.array(p.vertices, dtype=float)       # B below is about the object's own (re-reached) vertices
+        obs, _order = read_shuffled({
+            "volume": lambda: float(p.volume), "area": lambda: float(p.surface_area),
+            "face_areas": lambda: np.array(p.get_face_area(), dtype=float),
+            "centroid": lambda: np.array(p.centroid, dtype=float),
+            "inertia": lambda: np.array(p.inertia_tensor, dtype=float)}, case["vertices"])
         tri_impl = [np.array(t) for t in p._surface_triangulation()]
     except Exception as e:
         ctx.fail("Polyhedron:raises", "constructor or a measure raised %s on a valid closed mesh" % exc_kind(e),
